@@ -150,3 +150,25 @@ def flatten_top(items):
     for it in items:
         out.extend(flatten(it))
     return out
+
+
+def read_lenient(text):
+    """As ``read`` but never raises: stray ')' are ignored, missing ')' are
+    supplied at the end, an unterminated literal ends the text."""
+    stack = [[]]
+    try:
+        for kind, tok in lex(text):
+            if kind == '(':
+                stack.append([])
+            elif kind == ')':
+                if len(stack) > 1:
+                    done = stack.pop()
+                    stack[-1].append(done)
+            else:
+                stack[-1].append(tok)
+    except ReadError:
+        pass
+    while len(stack) > 1:
+        done = stack.pop()
+        stack[-1].append(done)
+    return stack[0]
